@@ -9,6 +9,14 @@ MC = "model_checking"
 OT = "other"
 
 CHECKS = {
+    "C01": dict(
+        engine="tv+rxsmt+symproxy",
+        category=TV,
+        technique="translation validation with SMT (z3): real convert() output and the source are executed by two independent symbolic machines; z3 decides equality of all observable terms for all variable values; regex->z3 literal lemmas; HexLiteral run on a symbolic int",
+        text="For every expression shape of the reference Color BASIC grammar up to the size bound, in ten statement contexts, the text emitted by the real convert() is parsed under BASIC09's precedence/typing and executed symbolically next to the source under Color BASIC's; z3 decides for all variable values (reals, or 16-bit ints in -6..6 when bitwise operators occur) that every observable (final stores, PRINT items, FOR operands, ON selection, branch taken, runtime-call arguments) is the same; sat models are confirmed by evaluation and replayed. Literal spellings and the hex threshold are decided as regex/integer queries over the real regexes and the real HexLiteral code.",
+        note="Bound: <=2 binary operators x 10 contexts and <=3 in assignments (quick); <=3 x 10 contexts and 4 in assignments with two prefixed operands (thorough); one parenthesis level; literals |s|<=7/9. ^, integer division and built-ins shared by both dialects are uninterpreted (same symbol both sides); float rounding, overflow and zero-trip FOR loops are outside. Trusted: the two reference parsers in vf/tv (Color BASIC ROM precedence table, BASIC09 manual precedence), z3.",
+        design="DESIGN.md §3 E3/E2/E5, §5 C01",
+    ),
     "C09": dict(
         engine="rxsmt+symproxy",
         category=OT,
